@@ -261,7 +261,10 @@ def modcovar(x, order):
 
     # Coefficients estimated via the covariance method
     # Here we use lstsq rathre than solve function because Xc is not square matrix
-    a, residues, rank, singular_values = scipy.linalg.lstsq(-Xc, X1)
+    # singular values below max(shape)*eps relative to the largest one are round-off
+    # of an exactly rank-deficient matrix (the usual rank tolerance)
+    rcond = max(Xc.shape) * np.finfo(float).eps
+    a, residues, rank, singular_values = scipy.linalg.lstsq(-Xc, X1, cond=rcond)
 
     # Estimate the input white noise variance
 
